@@ -387,11 +387,7 @@ func TestVerifC32Replay(t *testing.T) {
 					inside = true
 				}
 			}
-			// KF-C32-1: a custom bucket histogram without any bound has the single bucket (-Inf,+Inf]
 			kf := ""
-			if hc.h.UsesCustomBuckets() && len(hc.h.CustomValues) == 0 {
-				kf = ":nhcb-without-bounds"
-			}
 			if !inside {
 				viol("quantile-outside-rank-bucket"+kf, fmt.Sprintf("histogram_quantile(%v) = %v is outside the bucket holding rank %d/%d*count:%s; histogram %+v (real %v)", q, got, k, qden, desc, hc.rec.H, hc.h), hc.rec)
 			}
